@@ -41,3 +41,12 @@ Theorem C02_nf5_bounded : forall addr p m c,
   48 * len (n5_flows m) <= len p /\ len (n5_flows m) <= 30.
 Proof. intros addr p. rewrite tie_nf5_header_layout, tie_nf5_flow_layout. apply nf5_total. Qed.
 Print Assumptions C02_nf5_bounded.
+
+(* sFlow: the published document holds at most one sample or counter block per 8 octets of the datagram (and SFDecode
+   terminates: the Ok outcome excludes running out of fuel, which is one unit per octet) *)
+From VF Require Proofs.SflowSafety Proofs.ReaderProofs.
+Theorem C02_sflow_bounded : forall filter p, wf_bytes p ->
+  exists ok o, SflowSafety.sf_decode_src filter p = Ok (ok, o) /\
+    match o with Some j => SflowSafety.doc_samples j <= len p / 8 | None => True end.
+Proof. exact SflowSafety.sf_decode_src_safe. Qed.
+Print Assumptions C02_sflow_bounded.
